@@ -26,7 +26,7 @@ theorem lemma_cw_write_und (sn : Sniff) (w : CW) (d : Bytes) (hd : w.decided = f
 
 theorem lemma_start_enc (sn : Sniff) (w : CW) (pending : Bytes) (c : Bool) :
     (w.start sn pending c).1.enc = w.enc := by
-  unfold CW.start CW.restoreHeader CW.initCompression
+  unfold CW.start CW.restoreHeader CW.restoreTrailers CW.initCompression
   cases hcm : w.committed <;> simp <;> split <;> split <;> (try split) <;> simp
 
 /-- Write in the undecided phase once a status is recorded -/
